@@ -116,6 +116,7 @@ pub fn run_bytes(data: &[u8]) {
         clone_panics: 0,
         slot_consume: true,
         dtor_unwrap: false,
+        dtor_stash: false,
         allow_consume: false,
         clone_reentrant: false,
         default_ctor: 0,
